@@ -592,6 +592,11 @@ def build_templates_unit(cfg, n, outdir):
     blocks = tmpl.template_blocks(raw, 'generate_query_iter', 'iter_bind_mut', TMPL_ARCHS, TMPL_PARAMS, 'decide_iter', log)
     harness.append('fn tmpl_iter(world: &mut WorldS, tr_a: &mut Ghost<Seq<Visit>>, tr_b: &mut Ghost<Seq<Visit>>)\n{\n'
                    + '\n'.join(blocks) + '\n}\n')
+    # ecs_iter! with the dynamically typed parameter kinds: |e: &EntityAny, d: &EntityDirectAny, x: &CompX|
+    blocks = tmpl.template_blocks(raw, 'generate_query_iter', 'iter_bind_mut', TMPL_ARCHS,
+                                  [('EntityAny', None, False), ('EntityDirectAny', None, False), ('Component', 'comp_x', False)], 'decide_iter_any', log)
+    harness.append('fn tmpl_iter_any(world: &mut WorldS, tr_a: &mut Ghost<Seq<Visit>>, tr_b: &mut Ghost<Seq<Visit>>)\n{\n'
+                   + '\n'.join(blocks) + '\n}\n')
     # ecs_iter_borrow! (FetchMode::Borrow) with shared parameters only (RefMut accessors are outside the abstraction)
     blocks = tmpl.template_blocks(raw, 'generate_query_iter', 'iter_bind_borrow', TMPL_ARCHS,
                                   [('EntityWild', None, False), ('EntityDirectWild', None, False), ('Component', 'CompX', False)],
@@ -656,6 +661,14 @@ def world_sidecars(cfg, q, schema):
         e['rest_same'] = [' && '.join(['true'] + ['a.%s == b.%s' % (c, c) for j, c in enumerate(e['component']) if j != i]) for i in e['I']]
         e['St'] = '%s<%s, %s>' % (e['StorageN'], e['Tag'], ','.join(e['Component']))
         e['StE'] = '%s::<%s, %s>' % (e['StorageN'], e['Tag'], ','.join(e['Component']))
+        # the ids the DECLARATION asks for (from the schema, independent of what the generator computed): C15 emission check
+        sa = [x for x in schema.archetypes if x.name == a]
+        if len(sa) != 1:
+            raise ExtractError('R-quote: section_archetype evaluated for an archetype %s that is not in the schema' % a)
+        e['SchemaArchId'] = sa[0].id
+        e['SchemaCompId'] = [c.id for c in sa[0].components]
+        if [c.name for c in sa[0].components] != e['Component']:
+            raise ExtractError('R-quote: component list of %s differs from the schema' % a)
         arch_envs.append(e)
         sidecar.parse('worldgen_arch.vsp+%s' % a, quoteinst.instantiate(raw, e), sc)
     wpath = os.path.join(CONTRACTS, 'worldgen_world.vsp')
@@ -675,6 +688,8 @@ def world_sidecars(cfg, q, schema):
         e['iter'] = list(ev[0].get('iter') or ['iter_' + a for a in e['archetype']])      # locals of section_event_iter (events feature)
         e['others_same'] = ['(' + ' && '.join(['true'] + ['post.%s == pre.%s' % (f, f) for j, f in enumerate(e['archetype']) if j != i]) + ')'
                             for i in e['J']]
+        tags = e['Tag']
+        e['distinct_ids'] = ' && '.join(['true'] + ['%s::ARCHETYPE_ID != %s::ARCHETYPE_ID' % (tags[i], tags[j]) for i in range(len(tags)) for j in range(i + 1, len(tags))])
         e['data_cs'] = [', '.join('data.c%d()' % k for k in by_name[a]['I']) for a in e['Archetype']]
         for k in ('Archetype', 'archetype', 'Tag', 'St', 'StE', 'J', 'ArchetypeComponents', 'ArchetypeDirect'):
             e['All' + k] = list(e[k])
